@@ -30,9 +30,12 @@ import (
 
 type DlScript struct {
 	Name string `json:"name"`
-	Mode string `json:"mode"` // sleep | block | trapexit | ignore | exitat | builtin
-	Ms   int    `json:"ms"`
-	Neg  bool   `json:"neg,omitempty"`
+	Mode string `json:"mode"` // sleep | block | trapexit | ignore | exitat | builtin | bgignore
+	// bgignore (only with TSBATCH_BG_DEADLINE=1, see mainC17): a BACKGROUND command that ignores
+	// the signals, then a short foreground command.  Outside the property (its quantifier is about
+	// foreground commands): on the current code such a script never finishes.
+	Ms  int  `json:"ms"`
+	Neg bool `json:"neg,omitempty"`
 }
 
 type DeadlineJob struct {
@@ -53,6 +56,8 @@ func (s *DlScript) text(obsDir string) string {
 		return "# blocks forever, default signal disposition\n" + neg + "exec sleep 1000\n"
 	case "builtin":
 		return "# no subprocess at all\nmkdir d\ncd d\nexists .\n-- a.txt --\nx\n"
+	case "bgignore":
+		return fmt.Sprintf("# background command ignoring the signals\nexec helper deadline ignore 0 %s &\nexec helper deadline exitat 50 %s\n", log, log+"2")
 	default:
 		return fmt.Sprintf("# helper %s %d\n%sexec helper deadline %s %d %s\n", s.Mode, s.Ms, neg, s.Mode, s.Ms, log)
 	}
@@ -159,7 +164,7 @@ func (rn *runner) evalDeadline(dl *DeadlineJob) ([]dlFinding, map[string]int) {
 		fs = append(fs, dlFinding{oracle, detail, model, impl, kind})
 	}
 	b := &Batch{Procs: dl.Procs, Par: dl.Par}
-	ro := rn.runBatch(b, dl)
+	ro := rn.runBatch(b, dl, nil)
 	defer ro.cleanup()
 	if strings.Contains(ro.output, "DATA RACE") {
 		add("impl-violation", "race-detector", "data race: "+tail(ro.output, 1500), "", "")
@@ -272,6 +277,10 @@ func (rn *runner) evalDeadline(dl *DeadlineJob) ([]dlFinding, map[string]int) {
 			}
 		case "builtin":
 			early = true
+		}
+		if s.Mode == "bgignore" {
+			counts["class:background-ignoring"]++
+			continue
 		}
 		switch {
 		case blocked:
@@ -533,10 +542,15 @@ func (rn *runner) mainC17() {
 			{Name: fmt.Sprintf("h%dbuiltin", k), Mode: "builtin"},
 		}}, "hand"})
 	}
+	if os.Getenv("TSBATCH_BG_DEADLINE") == "1" {
+		// Observation outside C17 (not part of the check): a background command that ignores SIGINT
+		// and SIGQUIT is never killed (kill delay -1), run() waits for it for ever, also past the Deadline.
+		items = append(items, item{DeadlineJob{UntilMs: 600, Par: 8, Procs: 4, Scripts: []DlScript{{Name: "bgign", Mode: "bgignore"}}}, "observation"})
+	}
 	r := common.NewRNG(f.Seed)
-	n := 10
+	n := rn.size("TSBATCH_C17_QUICK", 10)
 	if f.Tier == "thorough" {
-		n = 150
+		n = rn.size("TSBATCH_C17_THOROUGH", 150)
 	}
 	for i := 0; i < n; i++ {
 		items = append(items, item{genDeadlineJob(r, i), "generated"})
